@@ -194,6 +194,9 @@ def simulate(program, deselected=None):
                     # before_step / step / after_step
                     step_layer = Layer("step", (name, s["uid"]))
                     hook("before_step", s["uid"], step_layer)
+                    called = not step_layer.hook_failed
+                    if called and o == "interrupt":
+                        state["aborted"] = True     # whatever the after_step hook does
                     if not step_layer.hook_failed:
                         if o not in ("undefined", "convert"):
                             ref.calls.append((name, s["uid"]))
